@@ -455,10 +455,15 @@ def inj_no_accel_config(rnd):
     st = {o: {"space": [], "time": ["M"]} for o in names}
     victim = rnd.randrange(n)
     other_binding = rnd.random() < 0.6
+    # the Einsum may also be absent from the bindings altogether (only possible when another
+    # Einsum keeps the section non-empty)
+    absent = n > 1 and rnd.random() < 0.35
 
     def bindings(missing):
         y = "bindings:\n"
         for i, o in enumerate(names):
+            if i == missing and absent:
+                continue
             y += "  %s:\n" % o
             if i != missing:
                 y += "  - config: accel\n    prefix: tmp/%s\n" % o
@@ -472,7 +477,8 @@ def inj_no_accel_config(rnd):
         for o in names)
     host = Spec(decl, exprs, spacetime=st, extra=ARCH + bindings(-1) + fmt)
     bad = Spec(decl, exprs, spacetime=st, extra=ARCH + bindings(victim) + fmt)
-    return "einsum-without-accelerator-config", "einsum%d/%d" % (victim, n), host, bad, "metrics"
+    return "einsum-without-accelerator-config", "einsum%d/%d%s" % (
+        victim, n, "-no-entry-at-all" if absent else ""), host, bad, "metrics"
 
 
 INJECTORS = [inj_dup_rank, inj_undeclared, inj_repeated, inj_terms_differ, inj_flatten_combined,
